@@ -1289,6 +1289,11 @@ class QuicConnection:
         available connection ID provided by the peer.
         """
 
+        # Use the connection IDs in the order of their sequence numbers, even
+        # if the NEW_CONNECTION_ID frames arrived out of order. Otherwise we may
+        # already have retired every connection ID a later "Retire Prior To"
+        # allows.
+        self._peer_cid_available.sort(key=lambda cid: cid.sequence_number)
         self._peer_cid = self._peer_cid_available.pop(0)
         self._logger.debug(
             "Switching to CID %s (%d)",
@@ -2008,6 +2013,12 @@ class QuicConnection:
 
         # assign new CID if we retired the active one
         if change_cid:
+            if not self._peer_cid_available:
+                raise QuicConnectionError(
+                    error_code=QuicErrorCode.PROTOCOL_VIOLATION,
+                    frame_type=frame_type,
+                    reason_phrase="No connection ID is left after Retire Prior To",
+                )
             self._consume_peer_cid()
 
         # check number of active connection IDs, including the selected one
